@@ -77,11 +77,12 @@ inductive UOp where
 `atom n`: any delimited expression of printer precedence 0 or 1 that is a single unit for the
 parser's base level (literal, identifier, class id, `this`, tuple, block); the two precedences
 behave identically in every parenthesisation test (`> 1`, `≥ 2`, `≥ 4…8`).
-`post e p`: field access, method access or call on `e` (`p` numbers the opaque postfix text).
+`post e p field`: field / method access (`field = true`) or call (`false`) on `e`; `p` numbers the
+opaque postfix text.
 `ifElse k`, `matchE k`: opaque if-else / match expression. `lambda k body`: `(params) -> body`. -/
 inductive Expr where
   | atom (a : Nat)
-  | post (e : Expr) (p : Nat)
+  | post (e : Expr) (p : Nat) (field : Bool)
   | unary (u : UOp) (e : Expr)
   | binary (o : BinOp) (l r : Expr)
   | ifElse (k : Nat)
@@ -92,7 +93,7 @@ inductive Expr where
 /-- `E::precedence` (source.rs:698-708). -/
 def Expr.prec : Expr → Nat
   | .atom _ => 0
-  | .post _ _ => 1
+  | .post _ _ _ => 1
   | .unary _ _ => 2
   | .binary o _ _ => 4 + o.pprec
   | .ifElse _ => 10
@@ -100,13 +101,13 @@ def Expr.prec : Expr → Nat
   | .lambda _ _ => 12
 
 /-- Tokens of the fragment. Unary `-` and binary `-` are the same token (`TokenOp::Minus`).
-`post p`: `.name<targs>` or `(args)`; `kwIf k` / `kwMatch k`: a whole if-else / match expression;
+`post p true`: `.name`, `post p false`: `(args)`; `kwIf k` / `kwMatch k`: a whole if-else / match expression;
 `lam k`: `(params) ->`. -/
 inductive Tok where
   | lp | rp | bang
   | op (o : BinOp)
   | atom (a : Nat)
-  | post (p : Nat)
+  | post (p : Nat) (field : Bool)
   | kwIf (k : Nat)
   | kwMatch (k : Nat)
   | lam (k : Nat)
@@ -138,14 +139,27 @@ def shortcutOk (o : BinOp) (r : Expr) : Bool :=
     (o == .plus || o == .mul || o == .and || o == .or) && o' == o && r1.prec != 4 + o.pprec
   | _ => false
 
-/-- `create_doc_without_preceding_comment` (source_printer.rs:578-760). -/
+/-- `ends_with_member_name` (source_printer.rs, added by fix 0291c0a for finding C08-F6): may the
+printed form end with a member name? (for a binary expression the printer looks at the right
+operand whether or not that is parenthesised — an over-approximation). -/
+def endsMember : Expr → Bool
+  | .post _ _ fld => fld
+  | .unary _ a => decide (a.prec < 2) && endsMember a
+  | .binary _ _ r => endsMember r
+  | .lambda _ b => endsMember b
+  | _ => false
+
+/-- `create_doc_without_preceding_comment` (source_printer.rs:578-790). -/
 def printE : Expr → List Tok
   | .atom a => [.atom a]
-  | .post e p => sub 1 false e (printE e) ++ [.post p]     -- create_chainable_ir_docs, base case
+  | .post e p fld => sub 1 false e (printE e) ++ [.post p fld]   -- create_chainable_ir_docs, base case
   | .unary u e => utok u :: sub 2 true e (printE e)         -- `true` since fix 7a6d532 (C08-F3)
   | .binary o l r =>
     let p := 4 + o.pprec
-    if l.prec = p then
+    if o = .lt ∧ endsMember l = true then
+      -- `a.b < c` is not a comparison for the parser: the left operand keeps its parentheses
+      paren (printE l) ++ [.op o] ++ sub p true r (printE r)
+    else if l.prec = p then
       -- "Since we are doing left to right evaluation, this is safe."
       printE l ++ [.op o] ++ sub p true r (printE r)
     else if r.prec = p ∧ shortcutOk o r = true then
@@ -159,6 +173,13 @@ def printE : Expr → List Tok
   | .lambda k body => .lam k :: sub 12 false body (printE body)
 
 abbrev PResult := Option (Expr × List Tok)
+
+/-- the next token is `<`. After a member name the parser always takes it for the start of explicit
+type arguments (`parse_optional_type_arguments`, source_parser.rs:2128-2153, called at 1028), so
+`a.b < c` is not a comparison (finding C08-F6). -/
+def startsLt : List Tok → Bool
+  | .op .lt :: _ => true
+  | _ => false
 
 mutual
 /-- `parse_expression`: `match` and `if` are recognised only here. -/
@@ -216,8 +237,11 @@ def parseLoop : Nat → Nat → Expr → List Tok → PResult
       | none => none
       | some (e2, r) => parseLoop f k (.binary o e e2) r
     else some (e, .op o :: ts)
-  | f + 1, k, e, .post p :: ts =>
-    if k = 6 then parseLoop f k (.post e p) ts else some (e, .post p :: ts)
+  | f + 1, k, e, .post p fld :: ts =>
+    if k = 6 then
+      -- a `<` after a member name starts type arguments; in the fragment that never parses
+      if fld && startsLt ts then none else parseLoop f k (.post e p fld) ts
+    else some (e, .post p fld :: ts)
   | _ + 1, _, e, ts => some (e, ts)
 end
 
@@ -242,7 +266,7 @@ def Expr.operandOk : Expr → Bool
 /-- The parser-side level at which an expression stands without parentheses:
 6 base / postfix, 5 unary, else the level of its operator (0 for the top-only forms). -/
 def Expr.lvl : Expr → Nat
-  | .atom _ | .post _ _ => 6
+  | .atom _ | .post _ _ _ => 6
   | .unary _ _ => 5
   | .binary o _ _ => o.plevel
   | .ifElse _ | .matchE _ | .lambda _ _ => 0
@@ -250,27 +274,38 @@ def Expr.lvl : Expr → Nat
 /-- does the printer parenthesise the left / right operand of `binary o l r`? (a restatement of
 the three cases of `printE`, see `printE_binary` in `Lemmas/Fmt.lean`). -/
 def lParen (o : BinOp) (l : Expr) : Bool :=
-  if l.prec = 4 + o.pprec then false else needParen (4 + o.pprec) true l
+  if o = .lt ∧ endsMember l = true then true
+  else if l.prec = 4 + o.pprec then false else needParen (4 + o.pprec) true l
 def rParen (o : BinOp) (l r : Expr) : Bool :=
   if l.prec = 4 + o.pprec then needParen (4 + o.pprec) true r
   else if r.prec = 4 + o.pprec ∧ shortcutOk o r = true then false
   else needParen (4 + o.pprec) true r
 
+/-- the printed form of the expression ends with a member name (`.name`). -/
+def lastField : Expr → Bool
+  | .atom _ | .ifElse _ | .matchE _ => false
+  | .post _ _ fld => fld
+  | .unary _ a => if needParen 2 true a then false else lastField a
+  | .binary o l r => if rParen o l r then false else lastField r
+  | .lambda _ b => lastField b
+
 /-- Side condition of the partial round-trip theorem: wherever the printer leaves an operand
 *without* parentheses, the parser's level structure reads it back as that operand:
 a bare left operand must stand at the parent's level or tighter (left associativity),
 a bare right operand strictly tighter, a bare operand of `!`/`-` or base of a postfix chain must
-be a base/postfix expression, and `if`/`match`/lambda are never bare operands. -/
+be a base/postfix expression, `if`/`match`/lambda are never bare operands, and the bare left operand
+of `<` does not end with a member name. -/
 def RT : Expr → Bool
   | .atom _ => true
   | .ifElse _ => true
   | .matchE _ => true
   | .lambda _ body => RT body
-  | .post e _ => RT e && (needParen 1 false e || (e.operandOk && decide (e.lvl ≥ 6)))
+  | .post e _ _ => RT e && (needParen 1 false e || (e.operandOk && decide (e.lvl ≥ 6)))
   | .unary _ e => RT e && (needParen 2 true e || (e.operandOk && decide (e.lvl ≥ 6)))
   | .binary o l r =>
     RT l && RT r && (lParen o l || (l.operandOk && decide (l.lvl ≥ o.plevel))) &&
-      (rParen o l r || (r.operandOk && decide (r.lvl > o.plevel)))
+      (rParen o l r || (r.operandOk && decide (r.lvl > o.plevel))) &&
+      !(o == .lt && !lParen o l && lastField l)
 
 /-! ## String literals -/
 
